@@ -303,6 +303,52 @@ fn c08_copy_on_write() {
     let _ = Arc::make_mut(&mut z2);
 }
 
+// the other owner is released during the payload's Clone (what another thread could do at that point) and the old
+// value's destructor panics: make_mut's release of the old handle is the last one
+thread_local! {
+    static PARKED: std::cell::RefCell<Option<Arc<Grenade>>> = std::cell::RefCell::new(None);
+    static PARKED_OFF: std::cell::RefCell<Option<OffsetArc<Grenade>>> = std::cell::RefCell::new(None);
+}
+struct Grenade {
+    armed: bool,
+}
+impl Clone for Grenade {
+    fn clone(&self) -> Grenade {
+        PARKED.with(|p| drop(p.borrow_mut().take()));
+        PARKED_OFF.with(|p| drop(p.borrow_mut().take()));
+        Grenade { armed: false }
+    }
+}
+impl Drop for Grenade {
+    fn drop(&mut self) {
+        if self.armed && !std::thread::panicking() {
+            panic!("destructor of the old value");
+        }
+    }
+}
+
+#[test]
+fn c08_make_mut_when_the_old_destructor_panics() {
+    // Arc::make_mut: the fresh copy is installed even when releasing the old handle unwinds
+    let mut a = Arc::new(Grenade { armed: true });
+    PARKED.with(|p| *p.borrow_mut() = Some(a.clone()));
+    let r = std::panic::catch_unwind(std::panic::AssertUnwindSafe(|| {
+        Arc::make_mut(&mut a);
+    }));
+    assert!(r.is_err());
+    assert!(!a.armed && Arc::count(&a) == 1);
+    drop(a);
+    // OffsetArc::make_mut: the same
+    let mut o = Arc::into_raw_offset(Arc::new(Grenade { armed: true }));
+    PARKED_OFF.with(|p| *p.borrow_mut() = Some(o.clone()));
+    let r = std::panic::catch_unwind(std::panic::AssertUnwindSafe(|| {
+        o.make_mut();
+    }));
+    assert!(r.is_err());
+    assert!(!o.armed && OffsetArc::strong_count(&o) == 1);
+    drop(o);
+}
+
 #[test]
 fn c09_unwrapping() {
     let a = Arc::new(D(1));
